@@ -473,25 +473,69 @@ def isBoolean : PyIndex → Option Nat
   | _ => none
 
 structure NamesSt where
-  take : List (Option Nat)
+  take : List (Option Nat)   -- idx_to_take (names, as positions, of the dims that are not advanced-indexed)
   count : Nat
-  noMore : Bool
+  advPos : Option Nat        -- adv_pos: position of the broadcast dims among the dims of the result
+  advDim : Nat               -- adv_dim: dim indexed by the first index array
+  advNdim : Nat              -- adv_ndim: number of broadcast dims
+  nAdv : Nat                 -- n_adv
+  advIsMask : Bool
+  sepAfterAdv : Bool
+  disjoint : Bool
 
-/-- the loop of `_get_names_idx` building `idx_to_take` -/
+/-- `_is_number`: ints and 0-d tensors (of any dtype) -/
+def isNumber : Ix → Bool
+  | .int _ => true
+  | .tensor [] _ => true
+  | .mask [] _ => true
+  | _ => false
+
+/-- for an index array: (its number of broadcast dims, the dims it indexes, is it a boolean mask) -/
+def advInfo : Ix → Option (Nat × Nat × Bool)
+  | .list _ => some (1, 1, false)
+  | .range .. => some (1, 1, false)
+  | .tensor s _ => some (s.length, 1, false)
+  | .mask s _ => some (1, s.length, true)
+  | _ => none
+
+/-- an index array met by the loop: `nd` broadcast dims, `consumed` dims indexed, `m`: boolean mask -/
+def advStep (nd consumed : Nat) (m : Bool) (st : NamesSt) : NamesSt :=
+  let st1 : NamesSt :=
+    if st.advPos.isNone then { st with advPos := some st.take.length, advDim := st.count, advIsMask := m }
+    else if st.sepAfterAdv then { st with disjoint := true } else st
+  { st1 with nAdv := st1.nAdv + 1, advNdim := max st1.advNdim nd, count := st1.count + consumed }
+
+/-- a slice (or an unconverted Ellipsis) met by the loop -/
+def sepStep (st : NamesSt) : NamesSt :=
+  { st with take := st.take ++ [some st.count], count := st.count + 1, sepAfterAdv := st.advPos.isSome }
+
+/-- one iteration of the loop of `_get_names_idx` (after the fix of the names of advanced-indexed results): index arrays
+    are replaced by the dims of their broadcast shape, in place when adjacent, in front when a slice or `None` separates them -/
+def namesStep (x : Ix) (st : NamesSt) : NamesSt :=
+  match x with
+  | .none => { st with take := st.take ++ [none], sepAfterAdv := st.advPos.isSome }
+  | x =>
+    if isNumber x then { st with count := st.count + 1 }
+    else match advInfo x with
+      | some (nd, consumed, m) => advStep nd consumed m st
+      | none => sepStep st
+
 def namesLoop : List Ix → NamesSt → NamesSt
   | [], st => st
-  | x :: r, st =>
-    match x with
-    | .none => namesLoop r { st with take := st.take ++ [none] }
-    | .int _ => namesLoop r { st with count := st.count + 1 }
-    | .tensor [] _ => namesLoop r { st with count := st.count + 1 }         -- _is_number: 0-d tensor
-    | .tensor s _ =>
-      if !st.noMore then namesLoop r { take := st.take ++ List.replicate s.length (some st.count), count := st.count + 1, noMore := true }
-      else namesLoop r { st with count := st.count + 1 }
-    | .mask s _ =>
-      if !st.noMore then namesLoop r { take := st.take ++ List.replicate s.length (some st.count), count := st.count + 1, noMore := true }
-      else namesLoop r { st with count := st.count + 1 }
-    | _ => namesLoop r { st with take := st.take ++ [some st.count], count := st.count + 1 }   -- slices, lists, ranges, Ellipsis
+  | x :: r, st => namesLoop r (namesStep x st)
+
+def NamesSt.init : NamesSt :=
+  { take := [], count := 0, advPos := none, advDim := 0, advNdim := 0, nAdv := 0, advIsMask := false,
+    sepAfterAdv := false, disjoint := false }
+
+/-- after the loop: a single index array keeps the name of the dim it indexes (repeated if it has several dims), a mask or
+    several index arrays give unnamed dims; the block goes in front when the index arrays are separated -/
+def namesFinish (st : NamesSt) : List (Option Nat) :=
+  match st.advPos with
+  | none => st.take
+  | some p =>
+    let block := List.replicate st.advNdim (if st.nAdv = 1 ∧ !st.advIsMask then some st.advDim else none)
+    if st.disjoint then block ++ st.take else st.take.take p ++ block ++ st.take.drop p
 
 /-- `names[i] if i is not None else None` -/
 def lookOne (names : Names) : Option Nat → Except Err (Option String)
@@ -511,7 +555,7 @@ def namesItems (items : List Ix) (bsLen : Nat) : List Ix :=
 def namesTake (names : Names) (bsLen : Nat) (items : List Ix) : Except Err Names :=
   match convertEllipsis (.tuple (namesItems items bsLen)) bsLen with
   | .error e => .error e
-  | .ok conv => lookNames names (namesLoop conv.items { take := [], count := 0, noMore := false }).take
+  | .ok conv => lookNames names (namesFinish (namesLoop conv.items NamesSt.init))
 
 /-- mirrors tensordict/base.py:_get_names_idx; `.error` = the lookups `names[i]` ran out of range -/
 def namesIdx (names : Option Names) (bsLen : Nat) (idx : PyIndex) : Except Err (Option Names) :=
@@ -630,12 +674,39 @@ structure EntryWrite where
   leafShape : Shape
   written : List Nat → Option (List Nat)
 
-/-- mirrors tensordict/_td.py:TensorDict.__setitem__ for a dict / TensorDict value (the first branch):
-    `indexed_bs = _getitem_batch_size(...)`; a dict becomes a tensordict of batch `indexed_bs`; a value whose batch is a
-    trailing part of `indexed_bs` is expanded on the left, any other value gets `batch_size = indexed_bs` assigned (which
-    fails unless every entry starts with `indexed_bs`); then per key `_set_at_str` (→ `tensor[idx] = item`), and for a key
-    missing from the destination `_SubTensorDict.set`: a zero leaf `batch_size ++ item.shape[len(indexed_bs):]` is created
-    and written at `idx`. `isDict`: the value is a plain dict, `vb`: batch size of a TensorDict value. -/
+/-- the batch handling of `__setitem__` for a collection value, given `indexed_bs`: which shape every entry has when it
+    reaches torch and how many leading coordinates of it (`k`) do not exist in the original entry.
+    * a dict goes through `from_dict_instance(value, batch_size=indexed_bs)`: every entry must start with `indexed_bs`;
+    * `value.batch_size == indexed_bs`: nothing to do;
+    * `value.shape == indexed_bs[-len(value.shape):]` (`-0:` is everything): `value.expand(indexed_bs)`;
+    * otherwise `value.batch_size = indexed_bs`, which fails unless every entry starts with `indexed_bs`. -/
+def collPlan (isDict : Bool) (vb ibs : Shape) (entries : List VEntry) : Except Err (Nat × List Shape) :=
+  match (if isDict then (if entries.all (fun e => hasPrefix ibs e.shape) then .ok ibs else .error .runtime) else .ok vb
+      : Except Err Shape) with
+  | .error e => .error e
+  | .ok vb =>
+    if vb = ibs then .ok (0, entries.map (·.shape))
+    else if vb = (if vb.length = 0 then ibs else ibs.drop (ibs.length - vb.length)) then
+      .ok (ibs.length - vb.length, entries.map (fun e => ibs ++ e.shape.drop vb.length))
+    else if entries.all (fun e => hasPrefix ibs e.shape) then .ok (0, entries.map (·.shape))
+    else .error .runtime
+
+/-- one key of the value: `_set_at_str` (→ `tensor[idx] = item`) on the destination leaf; for a key missing from the
+    destination `_SubTensorDict.set`: `_validate_value(check_shape)` (the item must start with the sub-tensordict's batch
+    size), a zero leaf `batch_size ++ item.shape[len(indexed_bs):]` is created and written at `idx`.
+    `sh`: shape of the item when it reaches torch, `k`: leading coordinates added by `expand`. -/
+def entryWriteK (td : TD) (ibs : Shape) (items : List Ix) (k : Nat) (e : VEntry) (sh : Shape) : Except Err EntryWrite := do
+  let leafShape ← (match e.target with
+    | some j => match td.leaves[j]? with
+      | some feat => .ok (td.bs ++ feat)
+      | none => .error .runtime
+    | none => if hasPrefix ibs sh then .ok (td.bs ++ sh.drop ibs.length) else .error .runtime)
+  let w ← TorchSpec.setIndex leafShape items sh
+  pure { target := e.target, leafShape := leafShape, written := fun c => (w c).map (·.drop k) }
+
+/-- mirrors tensordict/_td.py:TensorDict.__setitem__ for a dict / TensorDict value (the first branch): Ellipsis conversion,
+    dim-count check, `indexed_bs = _getitem_batch_size(...)`, the batch handling (`collPlan`), then one `entryWriteK` per key
+    in the order of `value.items()`. `isDict`: the value is a plain dict, `vb`: batch size of a TensorDict value. -/
 def setitemColl (td : TD) (idx : PyIndex) (isDict : Bool) (vb : Shape) (entries : List VEntry) :
     Except Err (List EntryWrite) := do
   let idx' ← (match idx with
@@ -644,25 +715,41 @@ def setitemColl (td : TD) (idx : PyIndex) (isDict : Bool) (vb : Shape) (entries 
     | .tuple l => if l.any (· = .ell) then convertEllipsis idx td.bs.length else .ok idx)
   checkIndexNdim idx' td.bs.length
   let ibs ← getitemBatchSize td.bs idx'
-  -- from_dict_instance(value, batch_size=indexed_bs): every entry must start with indexed_bs
-  let vb ← (if isDict then (if entries.all (fun e => hasPrefix ibs e.shape) then .ok ibs else .error .runtime) else .ok vb)
-  -- (k, shapes): k leading coordinates of the expanded value do not exist in the original entry
-  let (k, shapes) ← (
-    if vb = ibs then (.ok (0, entries.map (·.shape)) : Except Err (Nat × List Shape))
-    else if vb = (if vb.length = 0 then ibs else ibs.drop (ibs.length - vb.length)) then   -- indexed_bs[-len(value.shape):] (`-0:` is everything)
-      .ok (ibs.length - vb.length, entries.map (fun e => ibs ++ e.shape.drop vb.length))     -- value.expand(indexed_bs)
-    else if entries.all (fun e => hasPrefix ibs e.shape) then .ok (0, entries.map (·.shape))   -- value.batch_size = indexed_bs
-    else .error .runtime)
-  (entries.zip shapes).mapM (fun (e, sh) => do
-    let leafShape ← (match e.target with
-      | some j => match td.leaves[j]? with
-        | some feat => .ok (td.bs ++ feat)
-        | none => .error .runtime
-      | none =>
-        -- _SubTensorDict.set → _validate_value(check_shape): the item must start with the sub-tensordict's batch size
-        if hasPrefix ibs sh then .ok (td.bs ++ sh.drop ibs.length) else .error .runtime)
-    let w ← TorchSpec.setIndex leafShape idx'.items sh
-    pure { target := e.target, leafShape := leafShape, written := fun c => (w c).map (·.drop k) })
+  let (k, shapes) ← collPlan isDict vb ibs entries
+  (entries.zip shapes).mapM (fun (e, sh) => entryWriteK td ibs idx'.items k e sh)
+
+/-! `_SubTensorDict`: a tensordict that only sees an index of the entries of its source -/
+
+/-- a `_SubTensorDict` after `__init__`: the normalised index and the batch size -/
+structure Sub where
+  idx : PyIndex
+  bs : Shape
+  deriving Repr
+
+/-- mirrors tensordict/_td.py:_SubTensorDict.__init__: a non-tuple index (a list too) is wrapped in a tuple, an Ellipsis is
+    converted, the batch size comes from `_getitem_batch_size` (no dim-count check here: `__setitem__` did it before) -/
+def subInit (td : TD) (idx : PyIndex) : Except Err Sub := do
+  let items := idx.items
+  let idx' ← (if items.any (· = .ell) then convertEllipsis (.tuple items) td.bs.length else .ok (.tuple items))
+  let bs ← getitemBatchSize td.bs idx'
+  pure { idx := idx', bs := bs }
+
+/-- mirrors `_SubTensorDict._get_str` → `source._get_at_str(key, idx)` → `source[key][idx]` for the `j`-th leaf -/
+def subGet (td : TD) (sub : Sub) (j : Nat) : Except Err TorchSpec.IndexResult :=
+  match td.leaves[j]? with
+  | some feat => leafGet (td.bs ++ feat) sub.idx
+  | none => .error .runtime
+
+/-- `_SubTensorDict.names`: `source._get_names_idx(idx)` -/
+def subNames (td : TD) (sub : Sub) : Except Err (Option Names) := namesIdx td.names td.bs.length sub.idx
+
+/-- mirrors `_SubTensorDict.set_(key, value)` (existing key, `target = some j`) and `.set(key, value)` for a key missing from
+    the source (`target = none`): `_validate_value(check_shape=True)` — the value must start with the sub-tensordict's batch
+    size (no check when that is empty) — then `source[key][idx] = value`, on a fresh zero entry
+    `source.batch_size ++ value.shape[len(batch_size):]` for a new key -/
+def subSet (td : TD) (sub : Sub) (target : Option Nat) (sh : Shape) : Except Err EntryWrite :=
+  if sub.bs ≠ [] ∧ !hasPrefix sub.bs sh then .error .runtime
+  else entryWriteK td sub.bs sub.idx.items 0 { target := target, shape := sh } sh
 
 end Td
 end TdVerif.C03
